@@ -185,6 +185,8 @@ class Frame:
         c = self.cols[name]
         if isinstance(c, Poison):
             raise Undecided(f"column {name!r} is not modelled: {c.why}")
+        if c.meta is None:
+            c.meta = ("col", name)
         return c
 
     def _tag(self, v):
@@ -809,6 +811,29 @@ def merge_frames(interp, left, right, how="inner", on=None, suffixes=("_x", "_y"
     return out
 
 
+def _m_agg(self, interp):
+    def agg(func=None, axis=0, **kw):
+        pm = getattr(func, "pyvc_method", None)
+        if axis == 1 and pm and pm[1] == "join" and isinstance(pm[0], str):
+            _use("DataFrame.agg(sep.join, axis=1): row-wise string join of the columns (TypeError if a cell is not a string, e.g. NaN)")
+            cols = [self.col(c) for c in self.cols]
+            anynull = z3.Or(*[_null(c) for c in cols])
+            if not z3.is_false(z3.simplify(anynull)):
+                # is there a row with a null (non-string) cell?  then str.join raises TypeError
+                from . import sums as _s
+
+                b = _s.reduce_anyall(interp, V(anynull, (self.axis,)), None, "any")
+                if interp.ctx.branch(b, "agg-join-null"):
+                    raise SymRaise(ExcVal("TypeError", ("sequence item: expected str instance, float found",)))
+            t = cols[0].t
+            for c in cols[1:]:
+                t = z3.Concat(t, z3.StringVal(pm[0]), c.t)
+            return V(t, (self.axis,), self.index, None, None, ("joined", tuple(self.cols), [c.t for c in cols], [c.nan for c in cols]))
+        raise Undecided("DataFrame.agg form")
+
+    return agg
+
+
 def _m_groupby(self, interp):
     def groupby(by=None, **kw):
         by = [by] if isinstance(by, str) else list(by)
@@ -843,8 +868,19 @@ class EmptySeries:
     """the Series obtained by reducing a frame that has no columns"""
 
 
+class ILoc:
+    def __init__(self, frame):
+        self.frame = frame
+
+    def pyvc_getitem(self, interp, key):
+        if isinstance(key, slice):
+            _use("DataFrame.iloc[a:b]: positional row slice")
+            return self.frame.slice_rows(interp, key)
+        raise Undecided("DataFrame.iloc with a non-slice key")
+
+
 def _m_iloc(self, interp):
-    raise Undecided("DataFrame.iloc")
+    return ILoc(self)
 
 
 def _m_index(self, interp):
@@ -872,6 +908,7 @@ _FRAME_METHODS = {
     "drop_duplicates": _m_drop_duplicates,
     "merge": _m_merge,
     "groupby": _m_groupby,
+    "agg": _m_agg,
     "query": _m_query,
     "values": _m_values,
     "mean": _m_mean,
@@ -933,6 +970,16 @@ class GroupBy:
         w = z3.Int(fresh_name("wit"))
         ctx.assume(z3.Implies(p, z3.substitute(member, (root.u, w))))
         ctx.assume(z3.Implies(z3.Not(p), z3.Not(member)))
+        ctx.assume(z3.Implies(p, z3.And(w >= 0, w < root.n)))
+        # cross-instantiation: the witness of every other presence predicate over the same universe and key
+        # space is a row like any other -- instantiate fact (i) at it, in both directions (ground reasoning
+        # instead of quantified axioms; needed when two group domains are compared for alignment)
+        wl = ctx.__dict__.setdefault("_present_wit", [])
+        for (root2, gs2, p2, member2, w2) in wl:
+            if root2 is root and gs2 is gs:
+                ctx.assume(z3.Implies(z3.And(p2, z3.substitute(member, (root.u, w2))), p))
+                ctx.assume(z3.Implies(z3.And(p, z3.substitute(member2, (root.u, w))), p2))
+        wl.append((root, gs, p, member, w))
         reg[key] = p
         ctx.__dict__.setdefault("_present_defs", {})[pname] = (p, member, root)
         return p
@@ -1155,6 +1202,125 @@ def _default(sort):
     return z3.RealVal(0)
 
 
+class Dummies:
+    """pd.get_dummies(series): indicator matrix rows x sorted distinct non-null values"""
+
+    def __init__(self, interp, series):
+        if not (isinstance(series, V) and len(series.axes) == 1 and isinstance(series.axes[0], RowAxis)):
+            raise Undecided("get_dummies of something that is not a frame column")
+        _use("pd.get_dummies(col): one indicator column per distinct non-null value, columns sorted; .values[i,j] = (col[i] == value_j)")
+        self.interp = interp
+        self.series = series
+        ax = series.axes[0]
+        if series.meta and series.meta[0] == "joined":
+            keys, terms = list(series.meta[1]), series.meta[2]
+            nulls = series.meta[3]
+            _use("A-KEYJOIN (V3): joining the key columns with '_' is injective and order-preserving on the data, so the dummy columns of the joined key are the key tuples in tuple order")
+        else:
+            # the column's own name is not known here: recover it from the frame-independent key term
+            keys, terms = [_colname_of(series)], [series.t]
+            nulls = [series.nan]
+        self.keys = keys
+        sorts = {k: t.sort() for k, t in zip(keys, terms)}
+        gs = keyspace(keys, sorts)
+        self.gs = gs
+        fr = Frame(ax, {k: V(t, (ax,), None, nl) for k, t, nl in zip(keys, terms, nulls)}, None, None)
+        self.frame = fr
+        gb = GroupBy(fr, keys, interp)
+        segs = gb._group_dom(gs)
+        p = gb._present(gs, segs)
+        self.contest_axis = RowAxis(gs, [p], ("sorted", tuple(keys)))
+
+    def pyvc_getattr(self, interp, name):
+        if name == "values":
+            return Indicator(self, self.frame)
+        if name == "columns":
+            from .seq import SymSeq
+
+            kv = [self.gs.keyvars[k] for k in self.keys]
+            elem = kv[0]
+            for k in kv[1:]:
+                elem = z3.Concat(elem, z3.StringVal("_"), k)
+            return SymSeq(self.contest_axis, elem, "contests")
+        raise Undecided(f"get_dummies(...).{name}")
+
+
+def _colname_of(series):
+    if series.meta and series.meta[0] == "col":
+        return series.meta[1]
+    t = series.t
+    if z3.is_app(t) and t.num_args() == 1:
+        return t.decl().name()
+    raise Undecided("get_dummies: cannot identify the key column")
+
+
+class Indicator:
+    """rows of (a slice of) the frame the dummies were built from; value[i, j] = (key(row i) == contest j)"""
+
+    def __init__(self, dummies, frame, transposed=False):
+        self.d = dummies
+        self.frame = frame
+        self.transposed = transposed
+
+    def pyvc_getitem(self, interp, key):
+        if isinstance(key, slice):
+            return Indicator(self.d, self.frame.slice_rows(interp, key), self.transposed)
+        raise Undecided("indicator indexing")
+
+    def pyvc_getattr(self, interp, name):
+        if name == "T":
+            return Indicator(self.d, self.frame, not self.transposed)
+        if name == "shape":
+            return (self.frame.length(), self.d.contest_axis and SeqLenOf(self.d.contest_axis))
+        raise Undecided(f"indicator.{name}")
+
+    def pyvc_binop(self, interp, opname, o, rev):
+        if opname != "MatMult":
+            return NotImplemented
+        d = self.d
+        gs = d.gs
+        if not rev and self.transposed:
+            # A.T @ X : group sums of X's rows
+            _use("indicator.T @ X = per-contest sums of the rows of X (lemma indicator_matmul)")
+            x = o if isinstance(o, V) else V(to_term(o))
+            if not x.axes:
+                raise Undecided("indicator.T @ scalar")
+            xa = x.axes[0]
+            fa = self.frame.axis
+            from .values import same_axis
+
+            if not same_axis(xa, fa):
+                raise Undecided(f"indicator.T @ X over different rows ({xa} vs {fa})")
+            rest = tuple(x.axes[1:])
+            total = None
+            for i, dd in enumerate(fa.doms):
+                conds = [dd]
+                for k in d.keys:
+                    c = self.frame.cols[k]
+                    if c.nan is not None:
+                        conds.append(z3.Not(fa.seg_term(c.nan, i)))
+                    conds.append(fa.seg_term(c.t, i) == gs.keyvars[k])
+                xt = x.t
+                if isinstance(xa, RowAxis) and xa.sel is not None:
+                    xt = xa.seg_term(xt, i)
+                sym, _ = sums.formal_sum_dom(interp.ctx, fa.root, z3.And(*conds), num(xt))
+                total = sym if total is None else total + sym
+            sums._use("indicator_matmul")
+            return V(total, (d.contest_axis,) + rest, None)
+        if not rev and not self.transposed:
+            # A @ e : broadcast a per-contest vector back to the rows
+            _use("indicator @ e = the entry of e for the row's own contest (0 if the row has no contest)")
+            e = o if isinstance(o, V) else V(to_term(o))
+            raise Undecided("indicator @ vector (broadcast back) not modelled")
+        return NotImplemented
+
+
+def SeqLenOf(axis):
+    from .theory_np import SeqLen
+
+    return SeqLen(axis)
+
+
 def pd_isnull(x):
     if isinstance(x, Frame):
         return _m_isna(x, None)()
@@ -1170,6 +1336,7 @@ def pandas_table(interp):
         "isna": pd_isnull,
         "merge": lambda l, r, **kw: merge_frames(interp, l, r, **kw),
         "DataFrame": _dataframe_ctor(interp),
+        "get_dummies": lambda data, **kw: Dummies(interp, data),
     }
 
 
